@@ -109,6 +109,11 @@ func (w *Worker) genWorkload(r *simrt.Rand, pkgs []string, allowAll bool) *Workl
 		}
 	}
 	mode := r.Intn(10)
+	// a package without a checker of its own (the hand-written interplay
+	// packages) is there to put many checkers on the same nodes
+	if len(set) == 0 && allowAll && r.Intn(2) == 0 {
+		mode = 0
+	}
 	switch {
 	case mode == 0 && allowAll:
 		wl.EnableAll = true
@@ -230,7 +235,7 @@ func (w *Worker) execCLI(args []string, visits []simapi.Visit, v *simapi.Variant
 			panic("visit of unknown package " + vis.Pkg)
 		}
 		w.sink.visit = i
-		w.hooks.CheckPackage(h, cp.View(vis.Files))
+		w.hooks.CheckPackage(h, cp.ViewPermuted(vis.Files, vis.DeclSeed))
 	}
 	if v.Sched != nil {
 		simrt.Drain()
@@ -257,7 +262,7 @@ func (w *Worker) refForVisits(wl *Workload, visits []simapi.Visit) (perVisit [][
 		var ds []Diag
 		for _, fi := range vis.Files {
 			for _, c := range wl.Checkers {
-				e := w.refDiags(c, wl.Params[c], wl.GoVersion, vis.Pkg, fi)
+				e := w.refDiagsPerm(c, wl.Params[c], wl.GoVersion, vis.Pkg, fi, vis.DeclSeed)
 				if e.Panic != "" {
 					panics = append(panics, fmt.Sprintf("%s on %s/%d: %s", c, vis.Pkg, fi, e.Panic))
 				}
